@@ -44,7 +44,7 @@ CLAIMS = {
          "section 6 C06", "'considered exactly once' for held batches is proved as two window theorems (a held height is looked at by the next rated block; it is not looked at again once a rated height lies between); that a batch is in at most one window between two consecutive rated heights is their corollary, the end-to-end chain statement is by correspondence. "),
  "C07": ("Coq theorems over all int64 amounts and uint64 rates: Convert = floor(in*src/dst) with min/max against averages from PIP-10, error exactly on zero rate/average or "
          "int64 overflow, value never increases; chain level: a batch with conversions is only put into holding by its own block and executed by the next block that has "
-         "rates, at that block's rates: for every block without winners, whatever it contains, the status of every earlier batch is untouched (theorem over the whole block function); model of SyncBlock tied to the real node on chains with graded / ungraded patterns, including unrated snapshot heights, and on seed-driven random chains; a daemon under API load against an unloaded one.",
+         "rates, at that block's rates: for every block without winners, whatever it contains, the status of every earlier batch is untouched (theorem over the whole block function); a block that records rates runs the holding pass with exactly the rate map it recorded for its own height and the averages of the last rated height before it, and in that pass an admitted held conversion is executed exactly (one debit, one credit of floor(in*src/dst), no other cell, status = executing height, recorded to_amount = the credit); model of SyncBlock tied to the real node on chains with graded / ungraded patterns, including unrated snapshot heights, and on seed-driven random chains; a daemon under API load against an unloaded one.",
          "section 6 C07", ""),
  "C08": ("Coq theorems: the entries of the transaction chain are processed to the end WHATEVER they contain (totality of apply_tx_block from the invariants hist_closed / "
          "bal_room, which every reachable state is proved to satisfy; exact residual failure codes with no hypothesis on the entries), the holding pass of a rated block cannot "
@@ -62,15 +62,15 @@ CLAIMS = {
          "Known finding (recorded): errors in and around NullifyBurnAddress are dropped (Refuted/C10.v). A failed COMMIT ends the process (log.Fatal): treated as crash + restart. "),
  "C11": ("Coq theorems for every verdict and every factoid block: the reward step credits each winner's Payout() in PEG at its payout address and changes no other cell; each "
          "valid burn credits exactly its input amount of pFCT to its input address; the grader version by height is the protocol's table for every configuration in mainnet "
-         "order (ladders regenerated from the source). Tie: the real grader libraries' verdicts are inputs of the model; balances, coinbase and burn history, pn_winners and "
+         "order (ladders regenerated from the source); which SPR entries reach the staking grader (top-100 filter) and that blocks before 2.0 / SPR verdicts without winners pay no staking record. Tie: the real grader libraries' verdicts are inputs of the model; balances, coinbase and burn history, pn_winners and "
          "pn_grade compared with the node.", "section 6 C11",
-         "The graders are oracles (assumed total). 'SPRs not signed by a top-100 holder key pay nothing' is covered by the top-100 filter in the model and the correspondence; the staker id is not bound to the signing key (design section 6 C11). "),
- "C12": ("Coq theorems over all blocks: rates once recorded for a height never change, a block records rates for no other height than its own, and a block whose OPR (and from 2.0 SPR) verdict has no winners records no rates at all and changes the status of no earlier batch (executes no pending conversion). Tie: chains playing every "
+         "The graders are oracles (assumed total). Proved about the filter in front of the staking grader: the entries handed to it are exactly those with two external ids whose declared staker id is among the at most 100 largest positive PEG balances of the committed database (top-100 characterised: positive balance, no duplicates, maximality), the paying verdict is the one for exactly those entries, the SPR chain plays no part before 2.0, and an SPR verdict without winners changes nothing in the block. The signature check itself is inside the grader (oracle); the staker id is not bound to the signing key (design section 6 C11). "),
+ "C12": ("Coq theorems over all blocks: rates once recorded for a height never change, a block records rates for no other height than its own, and a block whose OPR (and from 2.0 SPR) verdict has no winners records no rates at all and changes the status of no earlier batch (executes no pending conversion); the tolerance band the code computes in binary64 is within 2^-50 (relative) of the stated percentage for every pair of uint64 quotes. Tie: chains playing every "
          "OPR/SPR combination (only OPR, only SPR, both in band, on the edge, outside) in the three band regimes with Coq's binary64 arithmetic, compared on pn_rate and "
          "batch status; oracle on the node's dumps: a rate row never changes or disappears.", "section 6 C12",
-         "The numeric sandwich of the binary64 band predicate is not proved (the predicate is the code's computation, checked by correspondence). Known finding in the design: the nil error returned on a band failure before 2.0.2 (closed era) is mirrored by the model. "),
+         "The binary64 band predicate is linked to the real-number rule by a proved sandwich for ALL uint64 quotes and the four tolerances: kept => |o-s| <= (T + 2^-50) s, and |o-s| <= (T - 2^-50) s => kept (Flocq over Coq's primitive floats; the 25 % band is the exact integer rule below 2^50); these two theorems depend on the standard library's real-number axioms (ClassicalDedekindReals.sig_not_dec, sig_forall_dec, functional_extensionality_dep, Classical_Prop.classic) and on the FloatAxioms / Uint63 specification axioms of the primitive types, all listed by Print Assumptions in the evidence; no other theorem does. eps cannot be 0 (1+0.001 rounds below 1001/1000: a quote exactly 0.1 % above was dropped in the closed 0.1 % era). Known finding in the design: the nil error returned on a band failure before 2.0.2 (closed era) is mirrored by the model. "),
  "C13": ("Coq theorems for every state, pair of assets, height and rate/average pattern: the decision rule for a conversion (insufficient funds, zero rate, one-way pFCT, one-way "
-         "small assets / PEG, unconvertible, let through), PEG conversions refused from 2.0 on, a conversion that is let through is recorded and a refused one leaves every "
+         "small assets / PEG, unconvertible, let through), PEG conversions refused from 2.0 on, a conversion that is let through and can be priced IS executed (applied, never rejected or a failed block) with exactly one debit and one credit of floor(in*src/dst) and no other balance touched, under the necessary and sufficient condition that the credited cell stays within int64; a refused one leaves every "
          "balance untouched; the one-way sets are regenerated from the source. Tie: a slice of all pairs x {act-1, act, act+1} on the real node; a chain where one asset loses its average while keeping its market rate.", "section 6 C13", ""),
  "C14": ("Coq theorems for all stake sets: the total paid never exceeds the cap, equals it to the last unit when the stakes reach it, below it everybody receives his stake; the "
          "stake depends on the two snapshots only through the per-asset minimum; an address absent from the previous snapshot has no stake; order independence; on the ledger, for every state: SnapshotPayouts rotates the snapshots (past := current, current := the balances of that moment), creates only PEG, by exactly the payouts of the sorted positive stakes, at most 4500 PEG x 144 and exactly that when the stakes reach it. Tie: "
@@ -86,12 +86,12 @@ CLAIMS = {
          "credited amounts, its status says the executing height and EVERY balance cell moves by exactly what those rows stand for (arrival path, holding path, and the coinbase-style "
          "writers: rewards, burns, developer and staking payouts); for EVERY chain without conversions into PEG and with distinct batch hashes, replaying the recorded history "
          "reproduces every balance outside the three special addresses (replay_accounts); paging by LIMIT/OFFSET over a fixed order "
-         "returns every action exactly once. Tie: history, lookup, status, holding and relation rows compared with the node; executable oracle 'replaying the recorded "
+         "returns every action exactly once; the history queries of the API layer are modelled (Model/Api.v: count query, data query with every filter, ORDER / LIMIT / OFFSET, the page walk, the status look-up) and proved: on well-formed history tables the reported count is the number of matching actions, the page walk returns each exactly once in order, a query by hash / address / height returns exactly the recorded actions of that entry / involving that address / entered at that height, descending order is the same set; a second batch row for one hash is shown to break paging (the schema allows it). Tie: the real SelectTransactionHistoryActionsBy{Hash,Address,Height} / SelectTransactionHistoryStatus of the node's final database walked page by page and compared with the query model evaluated on the MODEL's final state (about 150 walks per chain), whose history tables are also checked for well-formedness; history, lookup, status, holding and relation rows compared with the node; executable oracle 'replaying the recorded "
          "history reproduces every balance' on the node's dumps; the real API server (get-transactions by hash/address/height/txid with every filter and explicit offsets, "
          "get-transaction, get-transaction-status, get-pegnet-balances) walked page by page and compared with plain SELECTs over a read-only connection.", "section 6 C17",
-         "The API handlers are exercised, not modelled (paging is proved for the list-level query shape; the SQL the builder emits is tied by the walk). "),
+         "The JSON-RPC handlers above the query functions (parameter decoding, nextoffset arithmetic in srv/) are exercised by the API walk, not modelled. "),
  "C18": ("Coq theorem: API requests, as transitions that read the committed database and may rebuild the average cache, interleaved anywhere with block application, never change "
-         "the database computed; table obligations from the source: no statement reachable from a handler writes, all run on the pool, the shared fields are the reviewed ones "
+         "the database computed; table obligations from the source: no statement reachable from a handler writes, all run on the pool, the shared fields (of node.Pegnetd, pegnet.BlockSync and pegnet.Pegnet) are the reviewed ones "
          "and every conflicting pair of accesses holds a common mutex or uses sync/atomic. Tie: the real API server hammered from 8 goroutines during sync; thorough: under the race detector.",
          "section 6 C18", "Partial: goroutine interleavings at memory-access granularity are not modelled; the race detector run is supporting evidence. "),
  "C19": ("Coq theorem over all fork tables and all session histories: the final start-up refuses iff a block at or above a fork height was synced by an untracked or too old "
